@@ -1,0 +1,29 @@
+//go:build verif
+
+package types
+
+// Contracts for govc (see /verif/DESIGN.md). Comment-only file: no executable code.
+
+// C14: two configurations compare equal only if every launch-relevant setting is equal, so that a changed
+// process is never mistaken for an unchanged one. (Struct-valued settings ShutDownParams and RestartPolicy
+// are compared through reflect.DeepEqual on copies; they are outside what this contract can name.)
+//@ func (p *ProcessConfig) Compare
+//@   ensures nil: (p == nil || another == nil) ==> (result <==> p == another)
+//@   ensures scalars: p != nil && another != nil && result ==>
+//@        p.Name == another.Name && p.Disabled == another.Disabled && p.IsDaemon == another.IsDaemon && p.Command == another.Command &&
+//@        p.LogLocation == another.LogLocation && p.ReadyLogLine == another.ReadyLogLine && p.DisableAnsiColors == another.DisableAnsiColors &&
+//@        p.WorkingDir == another.WorkingDir && p.Namespace == another.Namespace && p.Replicas == another.Replicas && p.Description == another.Description &&
+//@        p.IsForeground == another.IsForeground && p.IsTty == another.IsTty && p.IsElevated == another.IsElevated
+//@   ensures executable: p != nil && another != nil && result ==> p.Executable == another.Executable
+//@   ensures launch-timeout: p != nil && another != nil && result ==> p.LaunchTimeout == another.LaunchTimeout
+//@   ensures references: p != nil && another != nil && result ==>
+//@        deepEq(boxed(p.LoggerConfig), boxed(another.LoggerConfig)) && deepEq(boxed(p.LivenessProbe), boxed(another.LivenessProbe)) &&
+//@        deepEq(boxed(p.ReadinessProbe), boxed(another.ReadinessProbe)) && deepEq(boxed(p.Vars), boxed(another.Vars)) &&
+//@        deepEq(boxed(p.Extensions), boxed(another.Extensions)) && deepEq(boxed(p.DependsOn), boxed(another.DependsOn)) &&
+//@        deepEq(boxed(p.Environment), boxed(another.Environment)) && deepEq(boxed(p.Args), boxed(another.Args))
+//@   ensures entrypoint: p != nil && another != nil && result ==> deepEq(boxed(p.Entrypoint), boxed(another.Entrypoint))
+//@   assigns nothing
+
+//@ func (p *ProcessConfig) IsDeferred
+//@   ensures result <==> (p.IsForeground || p.Disabled)
+//@   assigns nothing
